@@ -319,9 +319,15 @@ def execute_par_fault(plan, rows_in):
     pts = plan.get("calls")
     if pts is None:
         pts = sorted({p % n for p in plan["points"]})
-    for k in pts:
+    # the same crash points as failures INSIDE a task: the k-th composition count (RSMIDecomposer.decompose) of the run raises,
+    # which code between the task and the Parallel call may catch, retry or paper over
+    n2 = base.get("decompose_calls", 0)
+    dpts = plan.get("decompose_calls")
+    if dpts is None:
+        dpts = sorted({(p >> 7) % n2 for p in plan["points"][:2]}) if n2 else []  # two points per plan keep the plan inside its time budget
+    for site, k in [("par_task", k) for k in pts] + [("decompose", k) for k in dpts]:
         sim = common.clone(plan["sim"])
-        sim["faults"] = {"explicit": [{"site": "par_task", "key": [k, 0], "kind": "raise"}], "zombie_q": 0.0}
+        sim["faults"] = {"explicit": [{"site": site, "key": [k, 0] if site == "par_task" else [k], "kind": "raise"}], "zombie_q": 0.0}
         sub = {"property": plan["property"], "kind": "run", "rows": plan["rows"], "source": plan.get("source", "list"), "config": plan["config"], "sim": sim}
         res = runner.run_once(sub)
         out["runs"] += 1
@@ -337,12 +343,12 @@ def execute_par_fault(plan, rows_in):
         else:
             for row in res["rows"] or []:
                 for v in oracles.check_c01(row["input_reaction"] or "", row):
-                    v["detail"] = "[worker failure in Parallel call %d of %d] " % (k, n) + v["detail"]
+                    v["detail"] = ("[worker failure in Parallel call %d of %d] " % (k, n) if site == "par_task" else "[failure inside decompose call %d of %d] " % (k, n2)) + v["detail"]
                     v["subplan"] = sub
                     out["violations"].append(v)
-        if res["fired"].get("par_task.raise"):
-            out["nontrivial_many"].append("%016x" % H(sorted(rows_in), plan["config"], k))
-    out["sample"] = {"rows": rows_in, "config": plan["config"], "parallel_calls_in_run": n, "worker_failure_at_calls": pts}
+        if res["fired"].get("par_task.raise") or res["fired"].get("decompose.raise"):
+            out["nontrivial_many"].append("%016x" % H(sorted(rows_in), plan["config"], site, k))
+    out["sample"] = {"rows": rows_in, "config": plan["config"], "parallel_calls_in_run": n, "worker_failure_at_calls": pts, "decompose_calls_in_run": n2, "decompose_failure_at_calls": dpts}
     return out
 
 
